@@ -109,11 +109,10 @@ class MCPGenerator(Generator):
         set_sizes = self.size_sampler.sample((batch_size, self.num_sets))
         set_sizes = torch.floor(set_sizes).long()
         set_sizes = torch.clamp(set_sizes, self.min_size, self.max_size)
-        max_size = set_sizes.max().item()
 
         # Create membership tensor
         membership_tensor_max_size = torch.randint(
-            1, self.num_items + 1, (batch_size, self.num_sets, max_size)
+            1, self.num_items + 1, (batch_size, self.num_sets, self.max_size)
         )
 
         cutoffs_masks = torch.arange(self.max_size).view(1, 1, -1) < set_sizes.unsqueeze(
